@@ -93,7 +93,7 @@ def run(ctx):
     report = ctx["report"]
     rng = random.Random(ctx["seed"] + 1301)
     viol, corr = [], []
-    for name, r in regress.run(["duplicate_shared_domain"]).items():
+    for name, r in regress.run(["duplicate_shared_domain", "add_variable_shared_domains"]).items():
         report.cov["evaluations"] += 1
         if not r["ok"]:
             viol.append({"kind": "corpus", "case": name, "detail": r["detail"]})
